@@ -14,9 +14,9 @@ func init() { checks["C15"] = checkC15 }
 type rng2 = [2]int
 
 type rangeReq struct {
-	Op string    `json:"op"`
-	A  [][2]int  `json:"a"`
-	B  [][2]int  `json:"b"`
+	Op string   `json:"op"`
+	A  [][2]int `json:"a"`
+	B  [][2]int `json:"b"`
 }
 type rangeResp struct {
 	Out   [][2]int `json:"out"`
